@@ -5,7 +5,7 @@
    every run (numpy.dot argument order, what is handed to children and to instantiated
    nodes, the kind string each instance node answers to). *)
 From Coq Require Import List Bool ZArith NArith.
-From PC Require Import Base.Py Base.Mat Gen.Transforms Model.Transforms Model.Traverse Proofs.Traverse.
+From PC Require Import Base.Py Base.Mat Gen.Transforms Gen.Bound Model.Transforms Model.Traverse Proofs.Traverse.
 Import ListNotations.
 
 Definition is_ring {R : Type} (O : ops R) : Prop :=
@@ -36,49 +36,88 @@ Theorem C12_subtree : forall R (O : ops R), is_ring O -> forall (n : snode R) k 
 Proof. exact objects_paths. Qed.
 Print Assumptions C12_subtree.
 
-(* bound vertices are R.v + t and bound normals R.n for the bound matrix (any matrix) *)
-Theorem C12_bound_vertices : forall R (O : ops R), is_ring O -> forall M v,
-  bound_vertex O M v = xyz (mapply (oadd O) (omul O) M (point (o1 O) v)) /\
-  bound_vertex O M v = vadd (oadd O) (lin_apply (oadd O) (omul O) M v) (translation (o0 O) M).
-Proof. intros R O H M v. split; [exact (bound_vertex_is_apply R O H M v) | exact (bound_vertex_is_Rv_plus_t R O H M v)]. Qed.
+(* the controller kind is the same statement: one bound controller per instance_controller path, bound with
+   the product down the path ... *)
+Theorem C12_controllers_are_paths : forall R (O : ops R), is_ring O -> forall (scene : list (snode R)),
+  scene_objects O controller_node_kind scene =
+  map (bind_path O) (filter (fun p => Nat.eqb (leaf_kind (snd p)) 1) (scene_paths scene)).
+Proof. intros R O H scene. exact (scene_objects_are_paths R O H controller_node_kind scene). Qed.
+Print Assumptions C12_controllers_are_paths.
+
+(* ... and a bound skin binds its geometry with matrix . bind_shape_matrix (generated from BoundSkin.__init__):
+   its vertices are M.(B.v), its normals M.(B.n), whichever class binds the primitive *)
+Theorem C12_skin_geometry : forall R (O : ops R), is_ring O -> forall pk M B v,
+  bound_vertex O pk (skin_matrix O M B) v =
+    xyz (mapply (oadd O) (omul O) M (mapply (oadd O) (omul O) B (point (o1 O) v))) /\
+  bound_normal O pk (skin_matrix O M B) v =
+    xyz (mapply (oadd O) (omul O) M (mapply (oadd O) (omul O) B (direction (o0 O) v))).
+Proof. intros R O H pk M B v. split; [exact (skin_vertices R O H pk M B v) | exact (skin_normals R O H pk M B v)]. Qed.
+Print Assumptions C12_skin_geometry.
+
+(* scene graphs built through the constructors: [objects] is a function of the tree alone (the theorems
+   above quantify over every tree, however it came about); building in place composes - children appended
+   to a node (or nodes appended to a scene) contribute their objects after those already there, and a
+   material binding appended to an instance binds its symbol from then on *)
+Theorem C12_built_in_place : forall R (O : ops R), is_ring O ->
+  (forall k M own c1 c2, objects O k M (SNode own (c1 ++ c2)) = objects O k M (SNode own c1) ++ objects O k M (SNode own c2)) /\
+  (forall k s1 s2, scene_objects O k (s1 ++ s2) = scene_objects O k s1 ++ scene_objects O k s2) /\
+  (forall ctrl pk b s m, material_of ctrl pk (b ++ [(s, m)]) s = Some m) /\
+  (forall ctrl pk b s s' m, s' <> s -> material_of ctrl pk (b ++ [(s', m)]) s = material_of ctrl pk b s).
+Proof.
+  intros R O H. repeat split.
+  - exact (objects_children_app R O).
+  - exact (scene_objects_app R O).
+  - exact material_appended.
+  - intros ctrl pk b s s' m Hne. rewrite (material_surplus_ignored ctrl pk b [] s' m s Hne), app_nil_r. reflexivity.
+Qed.
+Print Assumptions C12_built_in_place.
+
+(* bound vertices are R.v + t and bound normals R.n for the bound matrix (any matrix), for each of the
+   binding classes pk (0 BoundTriangleSet, 1 BoundPolylist/BoundPolygons, 2 BoundLineSet); the expressions
+   are the ones regenerated from the three source files *)
+Theorem C12_bound_vertices : forall R (O : ops R), is_ring O -> forall pk M v,
+  bound_vertex O pk M v = xyz (mapply (oadd O) (omul O) M (point (o1 O) v)) /\
+  bound_vertex O pk M v = vadd (oadd O) (lin_apply (oadd O) (omul O) M v) (translation (o0 O) M).
+Proof. intros R O H pk M v. split; [exact (bound_vertex_is_apply R O H pk M v) | exact (bound_vertex_is_Rv_plus_t R O H pk M v)]. Qed.
 Print Assumptions C12_bound_vertices.
 
-Theorem C12_bound_normals : forall R (O : ops R), is_ring O -> forall M n,
-  bound_normal O M n = xyz (mapply (oadd O) (omul O) M (direction (o0 O) n)) /\
-  bound_normal O M n = lin_apply (oadd O) (omul O) M n.
-Proof. intros R O H M n. split; [exact (bound_normal_is_apply R O H M n) | exact (bound_normal_is_Rn R O H M n)]. Qed.
+Theorem C12_bound_normals : forall R (O : ops R), is_ring O -> forall pk M n,
+  bound_normal O pk M n = xyz (mapply (oadd O) (omul O) M (direction (o0 O) n)) /\
+  bound_normal O pk M n = lin_apply (oadd O) (omul O) M n.
+Proof. intros R O H pk M n. split; [exact (bound_normal_is_apply R O H pk M n) | exact (bound_normal_is_Rn R O H pk M n)]. Qed.
 Print Assumptions C12_bound_normals.
 
-(* the material of a primitive is the one bound to its symbol on that instance: the last
-   binding of the symbol; None when the symbol is not bound; other symbols do not matter *)
-Theorem C12_material_lookup : forall b s,
-  material_of b s = last_binding b s /\
-  ((forall sm, In sm b -> fst sm <> s) -> material_of b s = None) /\
-  (forall b1 b2 s' m, s' <> s -> material_of (b1 ++ (s', m) :: b2) s = material_of (b1 ++ b2) s) /\
-  (forall b1 b2 m, (forall sm, In sm b2 -> fst sm <> s) -> material_of (b1 ++ (s, m) :: b2) s = Some m).
+(* the material of a primitive is the one bound to its symbol on that instance: the last binding of the
+   symbol; None when the symbol is not bound; other symbols do not matter - for the table built by
+   GeometryNode.objects and by ControllerNode.objects (ctrl) and the look-up of each binding class *)
+Theorem C12_material_lookup : forall ctrl pk b s,
+  material_of ctrl pk b s = last_binding b s /\
+  ((forall sm, In sm b -> fst sm <> s) -> material_of ctrl pk b s = None) /\
+  (forall b1 b2 s' m, s' <> s -> material_of ctrl pk (b1 ++ (s', m) :: b2) s = material_of ctrl pk (b1 ++ b2) s) /\
+  (forall b1 b2 m, (forall sm, In sm b2 -> fst sm <> s) -> material_of ctrl pk (b1 ++ (s, m) :: b2) s = Some m).
 Proof.
-  intros b s.
-  exact (conj (material_is_last_binding b s) (conj (material_none b s)
-        (conj (fun b1 b2 s' m => material_surplus_ignored b1 b2 s' m s) (fun b1 b2 m => material_last_wins b1 b2 s m)))).
+  intros ctrl pk b s.
+  exact (conj (material_is_last_binding ctrl pk b s) (conj (material_none ctrl pk b s)
+        (conj (fun b1 b2 s' m => material_surplus_ignored ctrl pk b1 b2 s' m s) (fun b1 b2 m => material_last_wins ctrl pk b1 b2 s m)))).
 Qed.
 Print Assumptions C12_material_lookup.
 
-(* lights and cameras: position = M.(0,0,0,1) (a point light: M.(its position, 1)),
-   direction = M.(0,0,-1,0) (a directional light: M.(its direction, 0)), up = M.(0,1,0,0) *)
-Theorem C12_lights_cameras : forall R (O : ops R), is_ring O -> forall M pos dir,
+(* lights and cameras (generated from light.py / camera.py): position = M.(0,0,0,1) (a point light:
+   M.(its position, 1)), direction = M.(0,0,-1,0) (a directional light: M.(its direction, 0)), up = M.(0,1,0,0) *)
+Theorem C12_lights_cameras : forall R (O : ops R), is_ring O -> forall M pos dir ck,
   let A := mapply (oadd O) (omul O) M in
   let o := o0 O in let i := o1 O in
-  bound_light O 0 pos pos M = (Some (xyz (A (point i pos))), None, None) /\
+  bound_light O 0 pos dir M = (Some (xyz (A (point i pos))), None, None) /\
   bound_light O 0 (o, o, o) dir M = (Some (translation o M), None, None) /\
   bound_light O 1 pos dir M = (None, Some (xyz (A (direction o dir))), None) /\
   bound_light O 2 pos dir M = (Some (xyz (A (o, o, o, i))), Some (xyz (A (o, o, oopp O i, o))), Some (xyz (A (o, i, o, o)))) /\
   bound_light O 3 pos dir M = (None, None, None) /\
-  bound_camera O M = (xyz (A (o, o, o, i)), xyz (A (o, o, oopp O i, o)), xyz (A (o, i, o, o))).
+  bound_camera O ck M = (xyz (A (o, o, o, i)), xyz (A (o, o, oopp O i, o)), xyz (A (o, i, o, o))).
 Proof.
-  intros R O H M pos dir.
-  exact (conj (point_light_position R O H M pos) (conj (point_light_at_origin R O H M dir)
-        (conj (directional_light_direction R O H M pos dir) (conj (spot_light_frame R O H M pos dir)
-        (conj eq_refl (camera_frame R O H M)))))).
+  intros R O H M pos dir ck.
+  exact (conj (point_light_position_is R O H M pos dir) (conj (point_light_at_origin R O H M dir)
+        (conj (directional_light_direction_is R O H M pos dir) (conj (spot_light_frame R O H M pos dir)
+        (conj eq_refl (camera_frame R O H ck M)))))).
 Qed.
 Print Assumptions C12_lights_cameras.
 
@@ -101,8 +140,9 @@ Example C12_scene_nonvacuous :
   length (scene_objects zops 3 ex_scene) = 2%nat /\ length (scene_objects zops 2 ex_scene) = 1%nat.
 Proof. vm_compute. repeat split. Qed.
 Example C12_material_nonvacuous :
-  material_of [(1, 10); (1, 11); (5, 12)]%N 1%N = Some 11%N /\ material_of [(1, 10); (5, 12)]%N 2%N = None.
+  material_of false 0 [(1, 10); (1, 11); (5, 12)]%N 1%N = Some 11%N /\ material_of true 2 [(1, 10); (5, 12)]%N 2%N = None.
 Proof. vm_compute. split; reflexivity. Qed.
 Example C12_vertex_nonvacuous :
-  bound_vertex zops (zmmul ex_T ex_R) (1, 0, 0)%Z = (1, 3, 3)%Z /\ bound_normal zops (zmmul ex_T ex_R) (1, 0, 0)%Z = (0, 1, 0)%Z.
-Proof. vm_compute. split; reflexivity. Qed.
+  bound_vertex zops 0 (zmmul ex_T ex_R) (1, 0, 0)%Z = (1, 3, 3)%Z /\ bound_normal zops 2 (zmmul ex_T ex_R) (1, 0, 0)%Z = (0, 1, 0)%Z /\
+  bound_vertex zops 1 (skin_matrix zops ex_T ex_S) (1, 0, 0)%Z = (3, 2, 3)%Z.
+Proof. vm_compute. repeat split. Qed.
